@@ -35,24 +35,29 @@ class UnitEnvironment:
     def __init__(self, units):
         self.new_units = []
         self.new_types = []
-        for symbol, unit in units.items():
-            if isinstance(unit, Quantity):
-                unit = {'magnitude':unit.magnitude.value*unit.baseunits.magnitude, 'dimensions':unit.baseunits.dimensions.value(dtype=list)}
-            if symbol in UNIT_STANDARD:
-                raise Exception("Unit with this symbol already exists:", symbol)
-            if 'name' not in unit:
-                unit['name'] = symbol
-            if 'definition' not in unit:
-                unit['definition']=None
-            elif unit['definition'] is not None:
-                if not isinstance(unit['definition'], str) and unit['definition'] not in UNIT_TYPES:
-                    UNIT_TYPES.insert(0, unit['definition'])
-                    self.new_types.append(unit['definition'])
-            if 'prefixes' not in unit:
-                unit['prefixes'] = False
-            UNIT_STANDARD.append(symbol, (unit['magnitude'], unit['dimensions'], unit['definition'], unit['name'], unit['prefixes']))
-            self.new_units.append(symbol)
-        check_unique_symbols()
+        try:
+            for symbol, unit in units.items():
+                if isinstance(unit, Quantity):
+                    unit = {'magnitude':unit.magnitude.value*unit.baseunits.magnitude, 'dimensions':unit.baseunits.dimensions.value(dtype=list)}
+                if symbol in UNIT_STANDARD:
+                    raise Exception("Unit with this symbol already exists:", symbol)
+                if 'name' not in unit:
+                    unit['name'] = symbol
+                if 'definition' not in unit:
+                    unit['definition']=None
+                elif unit['definition'] is not None:
+                    if not isinstance(unit['definition'], str) and unit['definition'] not in UNIT_TYPES:
+                        UNIT_TYPES.insert(0, unit['definition'])
+                        self.new_types.append(unit['definition'])
+                if 'prefixes' not in unit:
+                    unit['prefixes'] = False
+                UNIT_STANDARD.append(symbol, (unit['magnitude'], unit['dimensions'], unit['definition'], unit['name'], unit['prefixes']))
+                self.new_units.append(symbol)
+            check_unique_symbols()
+        except:
+            # registration failed part-way: remove what has been registered so far
+            self.close()
+            raise
         
     def close(self):
         for unit in self.new_units:
